@@ -66,26 +66,28 @@ structure XStream where
   data : Bytes
   deriving Repr
 
-def XStream.entlen (x : XStream) : Nat := x.fl1 + x.fl2 + x.fl3
+def XStream.entlen (x : XStream) : Nat := entlenOf x.fl1 x.fl2 x.fl3
 
 /-- Python slice `d[off : off+len]`. -/
 def slice (d : Bytes) (off len : Nat) : Bytes := (d.drop off).take len
 
-/-- The `for start, nobjs in self.ranges` loop of `get_pos`: running row index of `n`. -/
+/-- The `for start, nobjs in self.ranges` loop of `get_pos`: running row index of `n` (range test and
+both `index +=` updates are the regenerated `inRange` / `indexHit` / `indexMiss`). -/
 def findIndex : List (Nat × Nat) → Nat → Nat → Option Nat
   | [], _, _ => none
   | (s, c) :: rest, n, acc =>
-    if s ≤ n ∧ n < s + c then some (acc + (n - s)) else findIndex rest n (acc + c)
+    if inRange s c n then some (indexHit acc s c n) else findIndex rest n (indexMiss acc s c n)
 
 /-- Decode row `i` as `get_pos` does: `(f1, f2, f3)` with the `nunpack` defaults. -/
 def XStream.row (x : XStream) (i : Nat) : Nat × Nat × Nat :=
-  let ent := slice x.data (x.entlen * i) x.entlen
-  (nunpack (ent.take x.fl1) typeDefault, nunpack ((ent.drop x.fl1).take x.fl2) field2Default,
-   nunpack (ent.drop (x.fl1 + x.fl2)) field3Default)
+  let ent := rowBytes x.data (rowOffset x.entlen i) x.entlen
+  (nunpack (field1 ent x.fl1 x.fl2 x.fl3) typeDefault, nunpack (field2 ent x.fl1 x.fl2 x.fl3) field2Default,
+   nunpack (field3 ent x.fl1 x.fl2 x.fl3) field3Default)
 
 /-- The type field of row `i` as `get_objids` decodes it (its own `nunpack` call). -/
 def XStream.rowType (x : XStream) (i : Nat) : Nat :=
-  nunpack ((slice x.data (x.entlen * i) x.entlen).take x.fl1) objidsTypeDefault
+  nunpack (objidsField1 (objidsRowBytes x.data (objidsRowOffset x.entlen i) x.entlen) x.fl1 x.fl2 x.fl3)
+    objidsTypeDefault
 
 /-- The generated `if f1 == …` chain packaged as an `Entry`. -/
 def rowEntry (r : Nat × Nat × Nat) : Option Entry :=
@@ -93,7 +95,7 @@ def rowEntry (r : Nat × Nat × Nat) : Option Entry :=
 
 /-- `PDFXRefStream.get_pos`; `none` = `PDFKeyError`. -/
 def XStream.getPos (x : XStream) (n : Nat) : Option Entry :=
-  match findIndex x.ranges n 0 with
+  match findIndex x.ranges n indexStart with
   | none => none
   | some i => rowEntry (x.row i)
 
@@ -105,7 +107,7 @@ def objidsAux (x : XStream) : List (Nat × Nat) → Nat → List Nat
   | [], _ => []
   | (s, c) :: rest, idx =>
     ((List.range c).filterMap (fun i =>
-        if rowInData (x.entlen * (idx + i)) x.data.length && inUseType (x.rowType (idx + i)) then some (s + i) else none))
+        if rowInData (objidsRowOffset x.entlen (idx + i)) x.data.length && inUseType (x.rowType (idx + i)) then some (s + i) else none))
       ++ objidsAux x rest (idx + c)
 
 def XStream.getObjids (x : XStream) : List Nat := objidsAux x x.ranges 0
